@@ -40,7 +40,10 @@ def fmt(x):
 
 
 def item_coeffs(comp, cell, item):
-    """Polynomial coefficients (W/m) of one item in one axial power cell."""
+    """Polynomial coefficients (W/m) of one item in one axial power cell (either the explicit table
+    comp["explicit"][cell][item] or the compact amplitude/phase form)."""
+    if "explicit" in comp:
+        return list(comp["explicit"][cell][item])
     base = comp["base"][cell]
     out = []
     for k, b in enumerate(base):
@@ -224,3 +227,8 @@ def write(spec, directory, name="input.txt"):
     with open(path, "w") as f:
         f.write(input_text(spec, pnames))
     return path
+
+
+def explicit_component(comp, n_cells):
+    """The compact component description expanded to an explicit per-cell, per-item coefficient table."""
+    return {"n": comp["n"], "explicit": [[item_coeffs(comp, c, i) for i in range(comp["n"])] for c in range(n_cells)]}
